@@ -25,5 +25,5 @@ Theorem k_jitrestrict_safe : forall args, Pre_jitrestrict args ->
   forall fuel, safe_outcome (run fuel k_jitrestrict args).
 Proof.
   intros args (d1 & d2 & d3 & ta & s & e & -> & H) fuel.
-  safe_start k_jitrestrict ann_jitrestrict. vc.
+  safe_start k_jitrestrict ann_jitrestrict. vc k_jitrestrict ann_jitrestrict.
 Qed.
